@@ -52,6 +52,8 @@ CAPSETS = {
     # announced names that merely contain an implemented mechanism's name: nothing qualifies, no credentials may be sent
     "lookalikes": dict(starttls=False, pre=b"X-PLAIN-SUBMIT NMAS_LOGIN OAUTHBEARER-V2", post=b"X-PLAIN-SUBMIT NMAS_LOGIN OAUTHBEARER-V2"),
     "tls-lookalikes-after": dict(starttls=True, pre=b"PLAIN", post=b"PLAIN-CLIENTTOKEN XDIGEST-MD5"),
+    # nothing (an empty list) announced after the handshake: no mechanism qualifies, whatever the caller prefers
+    "tls-empty-after": dict(starttls=True, pre=b"PLAIN LOGIN", post=b"", authmech="PLAIN"),
     "digest": dict(starttls=False, pre=b"DIGEST-MD5", post=b"DIGEST-MD5"),
     "tls-digest-after": dict(starttls=True, pre=b"PLAIN", post=b"DIGEST-MD5 PLAIN"),
 }
@@ -139,7 +141,8 @@ def run_history(capset, starttls, faults1, wrap_fails, pre, post, second, faults
         import socket as _socket
         s.plain.write_fault = (wfault[1], lambda: _socket.timeout("timed out"), wfault[0])
     # first connect in the positional form of the documented signature (login, password, authz_id, starttls), second one by keyword
-    o1 = s.call("connect", "user", "pass", "", starttls)
+    am = CAPSETS[capset].get("authmech")
+    o1 = s.call("connect", "user", "pass", "", starttls, am) if am else s.call("connect", "user", "pass", "", starttls)
     for name in post:
         do(name, "after connect")
     o2 = None
